@@ -8,10 +8,15 @@
 (*            str) - C04 Valid, C07 structure, C03 Render                  *)
 (*   parse  : from_str(s) = out for shape sh - C02/C05 through Judge,      *)
 (*            universal properties on the value                           *)
+(*   bseq   : a whole builder call sequence new(..).op1...opn.build() with *)
+(*            arbitrary arguments, its outcome and the parse of its printed*)
+(*            form - C09 through Apply/Track/Expected                      *)
+(*   opaque : an input beyond TLC's evaluation cap (64 KiB - 1 MiB): only  *)
+(*            the kind of outcome is constrained (C06)                     *)
 (* The table `lc` (when present) carries char::to_lowercase of the         *)
 (* non-ASCII characters occurring in the event.                            *)
 (***************************************************************************)
-EXTENDS PurlGrammar, Json, IOUtils, TLCExt
+EXTENDS PurlGrammar, PurlBuilder, Json, IOUtils, TLCExt
 
 Rec == ndJsonDeserialize(IOEnv.TRACE)
 VARIABLE l
@@ -27,7 +32,7 @@ ShapeOf(e) == IF e.sh = "typed" THEN Typed ELSE Generic
 ValueProps(e) ==
   LET v == e.v IN
   [C04 |-> IF e.generic THEN Valid(v) ELSE ValidParts(v),
-   C03 |-> (~e.generic \/ (e.str = Render(v) /\ PrintableAscii(e.str))),
+   C03 |-> (~e.generic \/ (e.str = Render(v) /\ PrintableAscii(e.str) /\ QSorted(v.quals))),
    C07 |-> (e.origin # "parse" \/ (NoBadSeg(v.ns, FALSE) /\ NoBadSeg(v.sub, TRUE)))]
 ParseProps(e) ==
   LET jd == Judge(e.s, ShapeOf(e), LcTab(e))
@@ -38,10 +43,34 @@ ParseProps(e) ==
       C05 |-> ((jd.j = "err" => ("ok" \in DOMAIN out /\ ~out.ok /\ out.err = jd.err))
                /\ (jd.j = "rej" => ("ok" \in DOMAIN out /\ ~out.ok))),
       C04 |-> (okv => Valid(out.v)),
-      C03 |-> (okv => (out.str = Render(out.v) /\ PrintableAscii(out.str))),
+      C03 |-> (okv => (out.str = Render(out.v) /\ PrintableAscii(out.str) /\ QSorted(out.v.quals))),
       C07 |-> (okv => (NoBadSeg(out.v.ns, FALSE) /\ NoBadSeg(out.v.sub, TRUE)))]
+\* fold the recorded ops over the builder and the history
+RECURSIVE RunOps(_, _, _, _)
+RunOps(b, last, ops, tab) ==
+   IF ops = <<>> THEN [ok |-> TRUE, b |-> b, last |-> last]
+   ELSE LET r == Apply(b, ops[1], tab) IN
+        IF ~r.ok THEN r ELSE RunOps(r.b, Track(last, ops[1], tab), Tail(ops), tab)
+BseqProps(e) ==
+  LET tab == LcTab(e)
+      sh == ShapeOf(e)
+      b0 == [st |-> e.ops[1][2], parts |-> [NoParts EXCEPT !.name = e.ops[1][3]]]
+      run == RunOps(b0, LastOfNew(e.ops[1][2], e.ops[1][3]), Tail(e.ops), tab)
+      out == e.out
+      okv == "ok" \in DOMAIN out /\ out.ok
+      exp == IF run.ok THEN BuildF(sh, run.b.st, run.b.parts, tab) ELSE run
+  IN [C06 |-> "panic" \notin DOMAIN out,
+      C09 |-> /\ (run.ok => Faithful(run.b, run.last))
+              /\ (okv <=> (run.ok /\ ExpectedOk(sh, run.last, tab)))
+              /\ (okv => out.v = ExpectedValue(sh, run.last, tab) /\ out.v = exp.v)
+              /\ (okv => ("ok" \in DOMAIN e.back /\ e.back.ok /\ e.back.v = DropInsig(out.v))),
+      C04 |-> (okv => Valid(out.v)),
+      C03 |-> (okv => out.str = Render(out.v) /\ PrintableAscii(out.str))]
+OpaqueProps(e) == [C06 |-> e.kind \in {"ok", "err"}]
 Props(e) == CASE e.ev = "value" -> ValueProps(e)
               [] e.ev = "parse" -> ParseProps(e)
+              [] e.ev = "bseq" -> BseqProps(e)
+              [] e.ev = "opaque" -> OpaqueProps(e)
               [] OTHER -> [TOOL |-> FALSE]
 FailedProps(e) == LET p == Props(e) IN {k \in DOMAIN p : ~p[k]}
 EventOk(e) == FailedProps(e) = {}
